@@ -25,7 +25,7 @@ ASSUMPTIONS = ["one case in four enters dimensionless size ratios below their de
                "unit strings '', None, 'none' count as dimensionless; 'degrees' as angle; type 'sld' as SLD",
                "rtol 1e-7 (conforming models agree to 1e-10..1e-15, offenders are off by 1e-2..0.9)"]
 REQUIRED_MONITORS = ["length_scaling_I", "length_scaling_Fq", "sld_scaling"]
-REQUIRED_BUCKETS = {"quick": ["pd:on", "pd:off", "mode>0", "dim:2d", "mesh>100:mode>0", "dist:lognormal", "dist:schulz", "dist:gaussian"]}
+REQUIRED_BUCKETS = {"quick": ["pd:on", "pd:off", "mode>0", "dim:2d", "mesh>100:mode>0", "dist:lognormal", "dist:schulz", "dist:gaussian", "magnetic"]}
 REQUIRED_BUCKETS["thorough"] = REQUIRED_BUCKETS["quick"]
 
 UNIT_EXP = {"Ang": 1, "Ang^2": 2, "Ang^3": 3, "1/Ang": -1, "1/Ang^2": -2, "1/Ang^3": -3, "Ang^-1": -1, "Ang^-2": -2}
@@ -68,6 +68,8 @@ def scaled(i, pars, lam, mu, override=None):
         if p.name not in out or p.name in ("scale", "background"):
             continue
         e = unit_exponent(p) if p.type != "magnetic" else 0
+        if p.type == "magnetic" and p.name.endswith("_M0"):
+            e = "sld"          # magnetic scattering length densities are declared in the SLD unit
         if override and p.name in override:
             e = override[p.name]
         if e == "sld":
@@ -126,6 +128,17 @@ def run_case(case, rec):
         rec.bucket("mesh>100")
     else:
         big = False
+    if dim == "2d" and i.parameters.nmagnetic > 0 and not sas.is_python(i):
+        # a magnetic SLD, and direction angles left on an SLD without magnetisation (angles carry no unit)
+        slds = [p_.name for p_ in i.parameters.call_parameters if p_.type == "sld" and p_.name in sas.active_names(i, pars)]
+        if slds:
+            pars[slds[0] + "_M0"] = float(rng.uniform(0.5, 4.0))
+            pars[slds[0] + "_mtheta"], pars[slds[0] + "_mphi"] = float(rng.uniform(-80, 80)), float(rng.uniform(-170, 170))
+            for s_ in slds[1:]:
+                pars[s_ + "_mtheta"], pars[s_ + "_mphi"] = float(rng.uniform(-80, 80)), float(rng.uniform(-170, 170))
+            pars.update(up_frac_i=float(rng.uniform(0, 1)), up_frac_f=float(rng.uniform(0, 1)),
+                        up_theta=float(rng.uniform(0, 180)), up_phi=float(rng.uniform(0, 180)))
+            rec.bucket("magnetic")
     rec.bucket("pd:on" if pd_on else "pd:off", "dim:" + dim)
     lam, mu = float(rng.uniform(0.3, 3.0)), float(rng.uniform(0.3, 3.0))
     size = sas.size_scale(i, pars)
